@@ -72,6 +72,19 @@ def templates(backend: str, s) -> List[str]:
         f"ds.Where(lambda e: {J}.First().pt() > 10.0).Select(lambda e: {J}.Count())",
         f"ds.Select(lambda e: 1.0 if ({J}.Count() > 0 and {J}.First().pt() > 10.0) else 0.0)",
         f"ds.Select(lambda e: {J}.Select(lambda j: 1 if (j.trkPts().Count() > 1 and j.trkPts()[1] > j.trkPts().First()) else 0))",
+        # the partial operation in the ELSE arm, statement-free (an index, a member chain) and with statements of its own
+        f"ds.Select(lambda e: -1.0 if {J}.Count() < 2 else {J}[1].pt())",
+        f"ds.Select(lambda e: (-1.0 if {J}.Count() < 2 else {J}[1].pt()) * 2 + 1)",
+        f"ds.Select(lambda e: {J}.Select(lambda j: -1.0 if j.trkPts().Count() < 2 else j.trkPts()[1]))",
+        f"ds.SelectMany(lambda e: {J}).Select(lambda j: (-1.0 if j.tracks().Count() < 1 else j.tracks()[0].pt(), j.pt()))",
+        f"ds.Select(lambda e: (0.0 if {J}.Count() == 0 else {J}[0].pt()) + (0.0 if {K}.Count() < 2 else {K}[1].eta()))",
+        f"ds.Select(lambda e: (-1.0 if {J}.Count() == 0 else {J}.First().pt()) / 1000.0)",
+        # ONE sequence bound to a lambda parameter, used under a guard and again without one in the same row / in the next step
+        f"ds.Select(lambda e: {J}.Where(lambda j: j.pt() > 30.0)).Select(lambda g: (g.First().pt() if g.Count() > 0 else -1.0, g.First().eta()))",
+        f"ds.Select(lambda e: {J}.Where(lambda j: j.pt() > 30.0)).Select(lambda g: {{'pt': g.First().pt() if g.Count() > 0 else -1.0, 'eta': g.First().eta()}})",
+        f"ds.Select(lambda e: {J}.Where(lambda j: j.pt() > 30.0)).Select(lambda g: (g.Count() > 0 and g.First().pt() > 40.0, g.First().eta()))",
+        f"ds.Select(lambda e: {J}.Where(lambda j: j.pt() > 30.0)).Select(lambda g: (g.First().eta(), g.First().pt() if g.Count() > 0 else -1.0))",
+        f"ds.Select(lambda e: ({J}.Where(lambda j: j.pt() > 30.0), {K})).Select(lambda t: (t[0].First().pt() if t[0].Count() > 0 else -1.0, t[1].Count(), t[0].First().eta()))",
     ]
     if backend == "atlas":
         T += [
